@@ -188,10 +188,14 @@ static uint64_t run_op(int opv) {
         const MODULE* md = modAll[q];
         int64_t* r = al(8 * 2 * n);
         fill_small(r, 2 * n, &s, 60);
-        vec_znx_rotate(md, 1234567, r, 2, n, r, 2, n); h = fnv(h, r, 8 * 2 * n);
-        vec_znx_automorphism(md, 4099, r, 2, n, r, 2, n); h = fnv(h, r, 8 * 2 * n);
-        vec_znx_big_rotate(md, -77, (VEC_ZNX_BIG*)r, 2, (VEC_ZNX_BIG*)r, 2); h = fnv(h, r, 8 * 2 * n);
-        vec_znx_big_automorphism(md, -5, (VEC_ZNX_BIG*)r, 2, (VEC_ZNX_BIG*)r, 2); h = fnv(h, r, 8 * 2 * n);
+        // (small dimensions: the calls are repeated so that every dimension keeps a thread inside them for a comparable time)
+        for (uint64_t rep = 0; rep < (n >= 4096 ? 1 : 4096 / n); ++rep) {
+          vec_znx_rotate(md, 1234567, r, 2, n, r, 2, n);
+          vec_znx_automorphism(md, 4099, r, 2, n, r, 2, n);
+          vec_znx_big_rotate(md, -77, (VEC_ZNX_BIG*)r, 2, (VEC_ZNX_BIG*)r, 2);
+          vec_znx_big_automorphism(md, -5, (VEC_ZNX_BIG*)r, 2, (VEC_ZNX_BIG*)r, 2);
+        }
+        h = fnv(h, r, 8 * 2 * n);
         free(r);
       }
       break;
